@@ -433,6 +433,31 @@ def gen_cases(rng, tier):
         for _ in range(150):
             out.append(mk("cond", random_cond(rng, rng.randrange(13, 40))))
             out.append(mk("event", random_event(rng, rng.randrange(14, 24))))
+    # _garbage_collect with several LIVE waiters in the deque (seeded change C34_3): live waiters in front of,
+    # between and behind > 100 timed waits that all expire; then the live ones are notified one at a time
+    for k in range(8 if tier == "quick" else 16):
+        n = 101 + rng.randrange(0, 4)
+        nfront, nmid, nback = rng.randrange(1, 4), rng.randrange(0, 3), rng.randrange(0, 3)
+        slots = ["T"] * n
+        for _ in range(nmid):
+            slots.insert(rng.randrange(1, len(slots)), "L")
+        slots = ["L"] * nfront + slots + ["L"] * nback
+        ops, timed, live = [], [], []
+        for w, kind in enumerate(slots):
+            if kind == "T":
+                ops.append(["W", rng.choice([1, 2, 5])])
+                timed.append(w)
+            else:
+                ops.append(["W", rng.choice([0, 0, 1])])
+                live.append(w)
+        ops.append(["D"])
+        rng.shuffle(timed)
+        ops += [["F", w] for w in timed]
+        if rng.random() < 0.5:
+            ops.append(["D"])
+        for _ in range(len(live) + 1):
+            ops.append(["N", rng.choice([1, 1, 1, 2])])
+        out.append(mk("cond", ops))
     for k in range(2 if tier == "quick" else 6):      # _garbage_collect
         n = 101 + rng.randrange(0, 6)
         ops = [["W", 0]] * rng.randrange(0, 3)
